@@ -447,7 +447,8 @@ def impl_env(config='py', optimize0=False, extra=None):
         env.pop('TENPY_NO_CYTHON', None)
     else:
         raise ValueError(config)
-    if optimize0:
+    if optimize0 and config == 'py':
+        # (the compiled replacements are inactive at TENPY_OPTIMIZE=0, so 'cy' always runs at the default level)
         env['TENPY_OPTIMIZE'] = '0'
     env['VERIF_DIR'] = VERIF
     if extra:
@@ -487,9 +488,15 @@ def run_impl_parallel(script, payloads, config='py', optimize0=False, timeout=18
 
 
 _cy_dir = None
+_cy_lock = __import__('threading').Lock()
 
 
 def cy_build():
+    with _cy_lock:
+        return _cy_build()
+
+
+def _cy_build():
     """Rebuild the compiled extension from the *current* /repo tree into a cache directory
     (outside /repo and /verif) keyed by the content of the compiled sources.  Returns the
     directory to put on PYTHONPATH."""
@@ -511,10 +518,11 @@ def cy_build():
     try:
         so_dir = os.path.join(dest, 'so')
         if not (os.path.isdir(so_dir) and any(f.endswith('.so') for f in os.listdir(so_dir))):
-            # prune old caches
-            for old in os.listdir(cache):
-                if old not in (key, '.lock'):
-                    shutil.rmtree(os.path.join(cache, old), ignore_errors=True)
+            # prune old caches: keep the four most recent builds (scratch-copy runs have other keys)
+            olds = sorted((o for o in os.listdir(cache) if o not in (key, '.lock')),
+                          key=lambda o: os.path.getmtime(os.path.join(cache, o)))
+            for old in olds[:-3]:
+                shutil.rmtree(os.path.join(cache, old), ignore_errors=True)
             shutil.rmtree(dest, ignore_errors=True)
             os.makedirs(dest)
             bdir = os.path.join(dest, 'build')
